@@ -1380,6 +1380,57 @@ fn write_shard(dir: &str, k: usize, solo: &[String], dirc: &[String]) {
     std::fs::write(format!("{}/cases_{}.v", dir, k), s).unwrap();
 }
 
+/// The named premise of the C05 / C04 theorems: `digest a = digest b -> a = b` (a mirror copy paired with a
+/// foreign token is rejected because its digest differs).  For every dimension 1..=67 and EVERY lane: two
+/// vectors differing in that lane only (sign flip, one ulp, +0.25) and two lanes swapped must have different
+/// digests.  A collision is a concrete counterexample to the premise.
+fn digest_premise_stream(rng: &mut Rng, out: &mut Out) {
+    let mut tested = 0u64;
+    let mut collisions = 0u64;
+    for dim in 1..=67usize {
+        for lane in 0..dim {
+            for kind in 0..4u8 {
+                let a: Vec<f32> = (0..dim).map(|_| ((rng.below(2001) as f32) - 1000.0) / 1000.0).collect();
+                let mut b = a.clone();
+                let what = match kind {
+                    0 => {
+                        b[lane] = if a[lane] == 0.0 { 0.5 } else { -a[lane] };
+                        "sign flip of one lane"
+                    }
+                    1 => {
+                        b[lane] = f32::from_bits(a[lane].to_bits() ^ 1);
+                        "one ulp in one lane"
+                    }
+                    2 => {
+                        b[lane] = a[lane] + 0.25;
+                        "+0.25 in one lane"
+                    }
+                    _ => {
+                        let other = (lane + 1 + (rng.below(dim.max(2) as u64 - 1) as usize)) % dim;
+                        b.swap(lane, other);
+                        "two lanes swapped"
+                    }
+                };
+                let (ab, bb): (Vec<u32>, Vec<u32>) = (a.iter().map(|x| x.to_bits()).collect(), b.iter().map(|x| x.to_bits()).collect());
+                if ab == bb {
+                    continue;
+                }
+                tested += 1;
+                if digest_embedding(&a) == digest_embedding(&b) {
+                    collisions += 1;
+                    if collisions <= 3 {
+                        out.oracle_failures.push(json!({"kind": "digest-premise",
+                            "why": format!("digest_embedding gives the SAME digest to two different vectors ({}; dimension {}, lane {}): a stale or foreign mirror copy whose versions differ only there passes the token + digest check", what, dim, lane),
+                            "case": {"dim": dim, "lane": lane, "perturbation": what, "a_bits": ab, "b_bits": bb}}));
+                    }
+                }
+            }
+        }
+    }
+    out.histogram.insert("digest_premise_pairs_tested".into(), tested);
+    out.histogram.insert("digest_premise_collisions".into(), collisions);
+}
+
 fn main() {
     let args: Vec<String> = std::env::args().collect();
     let get = |k: &str| args.iter().position(|a| a == k).and_then(|i| args.get(i + 1)).cloned();
@@ -1410,6 +1461,9 @@ fn main() {
         let before = out.all_cases.len();
         run_stress_phase(&mut w, &scratch, &mut cl, &mut out, &mut rng, n, &mut case_no);
         n_stress = out.all_cases.len() - before;
+    }
+    if get("--replay").is_none() {
+        digest_premise_stream(&mut rng, &mut out);
     }
     // shards
     let per = 250usize;
